@@ -104,7 +104,7 @@ namespace rkcommon {
 
       // Data members //
 
-      std::array<rkcommon::byte_t, sizeof(T)> storage;
+      alignas(T) std::array<rkcommon::byte_t, sizeof(T)> storage;
       bool hasValue{false};
     };
 
@@ -133,11 +133,8 @@ namespace rkcommon {
     template <typename T>
     inline Optional<T>::Optional(Optional<T> &&other) : Optional()
     {
-      if (other.has_value()) {
-        reset();
-        value()  = std::move(other.value());
-        hasValue = true;
-      }
+      if (other.has_value())
+        emplace(std::move(other.value()));
     }
 
     template <typename T>
@@ -150,11 +147,8 @@ namespace rkcommon {
                     " convertible to the type parameter of the destination"
                     " Optional<>.");
 
-      if (other.has_value()) {
-        reset();
-        value()  = std::move(other.value());
-        hasValue = true;
-      }
+      if (other.has_value())
+        emplace(std::move(other.value()));
     }
 
 #if 0  // NOTE(jda) - see comment in declaration...
@@ -181,6 +175,10 @@ namespace rkcommon {
     template <typename T>
     inline Optional<T> &Optional<T>::operator=(const Optional &other)
     {
+      if (!other.has_value()) {
+        reset();
+        return *this;
+      }
       default_construct_storage_if_needed();
       value()  = other.value();
       hasValue = true;
@@ -190,6 +188,10 @@ namespace rkcommon {
     template <typename T>
     inline Optional<T> &Optional<T>::operator=(Optional &&other)
     {
+      if (!other.has_value()) {
+        reset();
+        return *this;
+      }
       default_construct_storage_if_needed();
       value()  = std::move(other.value());
       hasValue = true;
@@ -219,6 +221,10 @@ namespace rkcommon {
                     " parameter of an instance being copied-from be"
                     " convertible to the type parameter of the destination"
                     " Optional<>.");
+      if (!other.has_value()) {
+        reset();
+        return *this;
+      }
       default_construct_storage_if_needed();
       value()  = other.value();
       hasValue = true;
@@ -234,6 +240,10 @@ namespace rkcommon {
                     " parameter of an instance being moved-from be"
                     " convertible to the type parameter of the destination"
                     " Optional<>.");
+      if (!other.has_value()) {
+        reset();
+        return *this;
+      }
       default_construct_storage_if_needed();
       value()  = other.value();
       hasValue = true;
